@@ -246,3 +246,27 @@ def run(eng: Engine, ck: Check):
                     ck.ob('R-C02-PARSER-TOTAL', f, n, f'{f.qualname}: every iteration parses an element (unpack_from raises at end of data, so a lying count cannot spin)',
                           consumes, 'loop body does not consume input', construct=f'{f.qualname} loop consumes')
     ck.floor('R-C02-PARSER-TOTAL', n_loops, 4)
+    # .. which rests on every fixed-width reader RAISING when the data is short: struct's unpack_from / unpack do (struct.error),
+    # `int.from_bytes(data[a:b])` and plain slicing do not (a short or empty slice is a value: 0, b'')
+    n_leaf = 0
+    for ci in repo.all_classes():
+        if ci.module.rel != PRIM or 'deserialize' not in ci.methods:
+            continue
+        m = ci.methods['deserialize']
+        composite = any(call_name(x) == 'deserialize' for x in calls_in(m.node))
+        stub = all(isinstance(s_, ast.Expr) and isinstance(s_.value, ast.Constant) for s_ in m.node.body)
+        if composite or stub:
+            continue
+        n_leaf += 1
+        ck.visited(m)
+        unp = [x for x in calls_in(m.node) if call_name(x) in ('unpack_from', 'unpack')]
+        soft = [x for x in calls_in(m.node) if call_name(x) in ('from_bytes',)]
+        c_ = eng.cfg(m)
+        first = [n_ for x in unp for n_ in c_.nodes_for(x)]
+        # the unpack dominates every return: no path hands out a value that did not go through it
+        ok = bool(first) and not soft and all(any(u in c_.dominators()[n_] for u in first) for r in walk_local(m.node) if isinstance(r, ast.Return) for n_ in c_.nodes_for(r))
+        ck.ob('R-C02-PARSER-TOTAL', m, m.node, f'{ci.name}.deserialize raises when fewer bytes are left than it needs (struct unpack_from / unpack): a count or length that '
+              'lies about the data ends the parse instead of yielding zeros', ok,
+              f'reads with {[unparse(x.func) for x in soft] or "something other than struct unpack"}: past the end of the frame it returns a value, '
+              '`for _ in range(count)` believes any count (4 billion iterations of the reader task for a 12-byte frame)', construct=f'{ci.name}.deserialize raises on short data')
+    ck.floor('R-C02-PARSER-TOTAL.leaf_readers', n_leaf, 7)
